@@ -31,6 +31,9 @@ type Conn struct {
 	ReadCalls int
 	OnWrite  func(c *Conn, b []byte) // called (without the lock) after each Write
 	OnClose  func()
+	FailWrites   int  // the next FailWrites Write calls log their bytes and then fail with a deadline error
+	BlockWrites  bool // every Write blocks until the write deadline (a peer that does not read, buffers full)
+	wdeadline    time.Time
 	OnWait   func(c *Conn, readCall int) // called once per Read that finds the queue empty (real mode), before it waits
 	Remote   string
 	gen      int
@@ -152,6 +155,30 @@ func (c *Conn) Write(b []byte) (int, error) {
 		return 0, net.ErrClosed
 	}
 	c.Writes = append(c.Writes, append([]byte(nil), b...))
+	if c.FailWrites > 0 {
+		c.FailWrites--
+		c.mu.Unlock()
+		return len(b) / 2, os.ErrDeadlineExceeded
+	}
+	if c.BlockWrites {
+		// wait for the write deadline (or Close); no deadline: wait until closed
+		for !c.closed {
+			if !c.wdeadline.IsZero() && !time.Now().Before(c.wdeadline) {
+				c.mu.Unlock()
+				return 0, os.ErrDeadlineExceeded
+			}
+			if !c.wdeadline.IsZero() {
+				d := time.Until(c.wdeadline)
+				t := time.AfterFunc(d, func() { c.cond.Broadcast() })
+				c.cond.Wait()
+				t.Stop()
+			} else {
+				c.cond.Wait()
+			}
+		}
+		c.mu.Unlock()
+		return 0, net.ErrClosed
+	}
 	f := c.OnWrite
 	c.mu.Unlock()
 	if f != nil {
@@ -184,10 +211,24 @@ func (c *Conn) RemoteAddr() net.Addr { return addr(c.Remote) }
 func (c *Conn) SetDeadline(t time.Time) error {
 	c.mu.Lock()
 	c.deadline = t
+	c.wdeadline = t
 	c.gen++
 	c.mu.Unlock()
 	c.cond.Broadcast()
 	return nil
 }
-func (c *Conn) SetReadDeadline(t time.Time) error  { return c.SetDeadline(t) }
-func (c *Conn) SetWriteDeadline(t time.Time) error { return nil }
+func (c *Conn) SetReadDeadline(t time.Time) error {
+	c.mu.Lock()
+	c.deadline = t
+	c.gen++
+	c.mu.Unlock()
+	c.cond.Broadcast()
+	return nil
+}
+func (c *Conn) SetWriteDeadline(t time.Time) error {
+	c.mu.Lock()
+	c.wdeadline = t
+	c.mu.Unlock()
+	c.cond.Broadcast()
+	return nil
+}
